@@ -315,10 +315,19 @@ def run_case(text, pred, strategy, jobs, sched, rec, case, check_fixed=True):
                     f'returned {" ".join(final)}, last written '
                     f'{" ".join(last)}')
         if check_fixed and strategy in ('hierarchical', 'hybrid'):
-            # C02: no proposal of the last pass on the final input is accepted
+            # C02: no proposal of any enabled mutator on the final input is
+            # accepted (the enabled set is taken from the registries and the
+            # option flags, not from get_passes)
             smtlib.collect_information(res)
             flag = FakeEvent(sched)
-            prod = RealProd(strategy_hierarchical.get_passes()[-1], flag, res)
+            from ddsmt import mutators as _mut
+            enabled = []
+            for _th, (mod_, names_) in _mut.get_all_mutators().items():
+                for cname, opt in names_.items():
+                    if getattr(options.args(),
+                               'mutator_' + opt.replace('-', '_'), True):
+                        enabled.append(getattr(mod_, cname)())
+            prod = RealProd(enabled, flag, res)
             for t in prod.generate(0, {}):
                 cand = real_apply(NoPickle.loads(t.exprs),
                                   NoPickle.loads(t.simp))
